@@ -371,6 +371,38 @@ func ruleTruncateOnClose(r *Report) {
 			}
 		}
 		o.OnlyAfterSuccess(rule, rule+"/recordio.FileWriter.Close/close-after-truncate", fn, "Truncate", T, "file.Close", onSuccessPath(fn, C), guards)
+		// block-aligned writers always leave a zero-padded tail behind the last record: Close truncates it
+		{
+			akey := rule + "/recordio.FileWriter.Close/aligned-tail-truncated"
+			removed := map[Edge]bool{}
+			tested := false
+			for _, b := range liveBlocks(fn) {
+				cnd, _, fS, _, fE, ok := effCond(b)
+				if !ok || !isFieldLoad("recordio.FileWriter", "alignedBlockWrites")(cnd) {
+					continue
+				}
+				tested = true
+				if fE {
+					removed[Edge{b, fS}] = true // the "not aligned" side
+				}
+			}
+			for _, t := range T {
+				for _, su := range t.Block.Succs {
+					removed[Edge{t.Block, su}] = true
+				}
+			}
+			skipped := false
+			for _, c := range onSuccessPath(fn, C) {
+				if siteReachable(c, removed) {
+					skipped = true
+				}
+			}
+			if !tested || skipped {
+				r.Bad(rule, akey, fn.Pos(), "a block-aligned (DirectIO) writer closes its file without truncating the zero padding of its last block: the readers of this package take the padding for the end of the file, the published Kaitai schema (repeat: eos with a magic) fails on it — every file written with DirectIO, for all four compression types, even a header-only one")
+			} else {
+				r.OK(rule, akey, fn.Pos(), "aligned writers truncate to the current offset at Close")
+			}
+		}
 		// the guard itself: Truncate runs exactly when largest > current
 		key := rule + "/recordio.FileWriter.Close/truncate-iff-lingering"
 		okGuard := false
